@@ -19,6 +19,7 @@ def EvOK (nv nc : Nat) : Event → Prop
       VecOK v ∧ 2 ≤ namelen ∧ 0 ≤ tablen ∧ (table.length : Int) ≤ tablen ∧
       (b = false → (name.length : Int) + 1 ≤ namelen) ∧
       (b = true → (name.length : Int) ≤ namelen + tablen)
+  | .options opts _ _ => 6 ≤ opts.length ∧ opts.length ≤ 14     -- what `OnAMPLOptions` receives: `Options[0 .. nOpts+4]`
   | _ => True
 
 /-- every event is `P`-good, and a vector that was not reported complete is the last event
